@@ -42,7 +42,8 @@ func init() {
 	register(&propSpec{
 		ID: "C31",
 		Explanation: "Decides that the three places that interpret core.autocrlf agree: (autocrlf-sets) add normalises to LF for the values {true,input} (fillEncodedObjectFromFile), status hashes normalised content for the same set " +
-			"(diffStagingWithWorktree), checkout converts to CRLF for {true} only; (binary-gate) each of the three sites decides on conversion only after convert.GetStat, on the !IsBinary() edge. Not decided: the converted bytes themselves.",
+			"(diffStagingWithWorktree), checkout converts to CRLF for {true} only; (binary-gate) each of the three sites decides on conversion only after convert.GetStat, on the !IsBinary() edge; (carry-state-updated) the streaming converters of utils/convert refresh every receiver field they keep between Write calls on each path that consumes a chunk (only the empty-chunk edge is exempt), " +
+			"so a line ending split across two chunks is seen. Not decided: the converted bytes themselves.",
 		Assumptions: []string{},
 		Run:         runC31,
 	})
@@ -514,6 +515,8 @@ func runC33(c *Ctx) {
 
 func runC31(c *Ctx) {
 	p := c.P
+	checkCarryStateUpdated(c, "carry-state-updated", "utils/convert")
+	PackagesStateFree(c, "codec-state-free", "utils/convert")
 	const r1 = "autocrlf-sets"
 	pk := p.Pkg("git")
 	if pk == nil {
